@@ -45,7 +45,7 @@ _EXPECTED_PARAMS = {
 
 class P(vlib.Prop):
     pid = "C18"
-    coq_dirs = ["Common", "C18"]
+    coq_dirs = ["Common", "C18", "Generated"]
     coq_targets = ["C18/Properties.vo", "C18/Witness.vo", "C18/Harness.vo"]
     properties_module = "C18.Properties"
     properties_file = "C18/Properties.v"
